@@ -123,22 +123,44 @@ theorem stepSample_allowed (P : Params) (st : St) (s : OSample) (isNh : Bool) (h
   simp only [stepSample, h, Bool.not_true, Bool.false_and]
   rfl
 
-theorem sampleChecks_pre (P : Params) (h : Hdr) (gr : Grp) (s : OSample) (isNh : Bool) (n : Str) (hn : h.name = some n)
-    (he : isError (preChecks P n h.typ s) = true) : isError (sampleChecks P h gr s isNh) = true := by
-  simp only [sampleChecks, hn]
+/-- on a plain sample (not read as a native histogram) `sampleChecks` is: name, label checks, grouping, value checks -/
+theorem sampleChecks_false (P : Params) (h : Hdr) (gr : Grp) (s : OSample) :
+    sampleChecks P h gr s false = match h.name with
+      | none => .error .typeError
+      | some name =>
+        match preChecks P name h.typ s with
+        | .error e => .error e
+        | .ok _ =>
+          match groupStep P gr name (h.typ.getD []) s with
+          | .error e => .error e
+          | .ok gr' =>
+            match postChecks P name h.typ s with
+            | .error e => .error e
+            | .ok _ => .ok gr' := by
+  unfold sampleChecks
+  simp only [Bool.false_and, Bool.false_eq_true, if_false, Bool.not_false, if_true]
+  rfl
+
+theorem sampleChecks_pre (P : Params) (h : Hdr) (gr : Grp) (s : OSample) (n : Str) (hn : h.name = some n)
+    (he : isError (preChecks P n h.typ s) = true) : isError (sampleChecks P h gr s false) = true := by
+  rw [sampleChecks_false, hn]
+  dsimp only
   cases hp : preChecks P n h.typ s with
   | error e => rfl
   | ok u => rw [hp] at he; cases he
 
-theorem sampleChecks_post (P : Params) (h : Hdr) (gr : Grp) (s : OSample) (isNh : Bool) (n : Str) (hn : h.name = some n)
-    (he : isError (postChecks P n h.typ s) = true) : isError (sampleChecks P h gr s isNh) = true := by
-  simp only [sampleChecks, hn]
+theorem sampleChecks_post (P : Params) (h : Hdr) (gr : Grp) (s : OSample) (n : Str) (hn : h.name = some n)
+    (he : isError (postChecks P n h.typ s) = true) : isError (sampleChecks P h gr s false) = true := by
+  rw [sampleChecks_false, hn]
+  dsimp only
   cases preChecks P n h.typ s with
   | error e => rfl
   | ok u =>
-    cases (if !isNh then groupStep P gr n (h.typ.getD []) s else .ok { gr with samples := gr.samples ++ [s] }) with
+    dsimp only
+    cases groupStep P gr n (h.typ.getD []) s with
     | error e => rfl
     | ok gr' =>
+      dsimp only
       cases hp : postChecks P n h.typ s with
       | error e => rfl
       | ok u => rw [hp] at he; cases he
